@@ -238,6 +238,13 @@ def fold_static(tree, class_node=None):
                                                          comparators=[node.args[1]]), node)
                 if node.func.attr in _OP_BIN:
                     return ast.copy_location(ast.BinOp(left=node.args[0], op=_OP_BIN[node.func.attr](), right=node.args[1]), node)
+            # partial(f, a, k=v)(b) -> f(a, b, k=v): a function bound in advance and applied on the spot
+            if isinstance(node.func, ast.Call) and norm_(node.func.func) in ("partial", "functools.partial") and node.func.args \
+                    and not any(isinstance(a, ast.Starred) for a in list(node.func.args) + list(node.args)) \
+                    and all(k.arg is not None for k in list(node.func.keywords) + list(node.keywords)):
+                inner = node.func
+                return ast.copy_location(ast.Call(func=inner.args[0], args=list(inner.args[1:]) + list(node.args),
+                                                  keywords=list(inner.keywords) + list(node.keywords)), node)
             # f(*(a, b), c) -> f(a, b, c)
             if any(isinstance(a, ast.Starred) and isinstance(a.value, (ast.Tuple, ast.List)) for a in node.args):
                 args = []
